@@ -413,6 +413,25 @@ def families(tier):
     c["family"] = "repo-tests/test_machine_processes_multiple_inputs"
     c["drains"] = False
     C.append(c)
+    # set-up periods on every kind of work node (the first families had them on machines only): items that arrive
+    # during the set-up wait, end times during and exactly at the end of the set-up
+    def with_setup(c, setups, T=None, fam="setup"):
+        k = 0
+        for x in c["nodes"]:
+            if x["type"] in ("machine", "splitter", "combiner"):
+                x["setup"] = setups[k % len(setups)]
+                k += 1
+        if T is not None:
+            c["T"] = T
+        c["family"] = fam + "/" + c["family"]
+        return c
+    for setups, T in [((5,), None), ((3, 9), None), ((12, 2), 90), ((7,), 4), ((7,), 7), ((6, 6), 30)]:
+        C.append(with_setup(comb_split(recipe=(1, 2), piat=(2, 2, 2), iiat=(1,) * 8, cpd=(3,), spd=(1,)), setups, T))
+        C.append(with_setup(pallet_split(mode="FIFO", piat=(1, 1, 1, 1), spd=(2,)), setups, T))
+        C.append(with_setup(comb_comb(), setups, T))
+        C.append(with_setup(fan_in(pin="ROUND_ROBIN", wc=2, pd=(2, 5)), setups, T))
+        C.append(with_setup(comb_split(recipe=(1, 1), cb=False, spb=False, piat=(1, 1, 1, 1), iiat=(1,) * 6, cpd=(2,), spd=(3,),
+                                       caps=(1, 1, 1, 1)), setups, T))
     C += invalid_configs()
     for i, c in enumerate(C):
         c["name"] = "fam%03d" % i
@@ -491,4 +510,29 @@ def all_configs(tier, seed):
     rng = random.Random("factory-%d" % seed)
     n = 120 if tier == "quick" else 2500
     C += [random_config(rng, i) for i in range(n)]
+    C += shifted(C, seed, 40 if tier == "quick" else 500)
     return C
+
+
+def shifted(C, seed, n):
+    """the "shifted" family: members of the corpus run in an Environment whose initial_time is not zero (cfg["t0"] ticks).
+    Recorded times are relative to the start, so every clause about item movement applies unchanged: a component that
+    computes with the absolute clock where the statement speaks of durations (a set-up period "until clock value s",
+    a first inter-arrival or fleet period measured from zero) behaves differently only here."""
+    import copy
+    rng = random.Random("factory-shift-%d" % seed)
+    valid = [c for c in C if c.get("expect", "valid") == "valid" and not c.get("via")]
+    withsetup = [c for c in valid if any(x.get("setup", 0) > 0 for x in c["nodes"])]
+    pick = withsetup[:12] + rng.sample(valid, min(n, len(valid)))
+    out = []
+    for k, c in enumerate(pick):
+        c = copy.deepcopy(c)
+        c["t0"] = rng.choice([1, 3, 8, 21, 64])
+        if rng.random() < 0.5:           # give more nodes a set-up period
+            for x in c["nodes"]:
+                if x["type"] in ("machine", "splitter", "combiner") and not x.get("setup"):
+                    x["setup"] = rng.choice([0, 2, 5])
+        c["name"] = "%s@t0=%d#%d" % (c["name"], c["t0"], k)
+        c["family"] = "shifted/" + c["family"]
+        out.append(c)
+    return out
